@@ -269,6 +269,14 @@ var selCases = []selCase{
 	{"mix=>o", func(d *selDoc) (any, bool) { return Map{"p_q": d.x, "p_r_z": d.s, "w": d.y}, false }},
 	{"mix=>o.p", func(d *selDoc) (any, bool) { return Map{"q": d.x, "r_z": d.s}, false }},
 	{"mix=>a.b", func(d *selDoc) (any, bool) { return nil, true }},
+	// `::` continuation and the plain selectors its stages spell
+	{"a::b", func(d *selDoc) (any, bool) { return d.x, false }},
+	{"b", func(d *selDoc) (any, bool) { return nil, false }},
+	{"a::c", func(d *selDoc) (any, bool) { return d.s, false }},
+	{"c", func(d *selDoc) (any, bool) { return nil, false }},
+	{"o::p::q", func(d *selDoc) (any, bool) { return d.x, false }},
+	{"p", func(d *selDoc) (any, bool) { return nil, false }},
+	{"q", func(d *selDoc) (any, bool) { return nil, false }},
 	// a top-level function and a keep=> marker in one segment
 	{"mix=>m[keep=>each:each]", func(d *selDoc) (any, bool) { return []any{d.x, d.y, d.x}, false }},
 	{"distinct=>m[keep=>each:0]", func(d *selDoc) (any, bool) {
@@ -493,4 +501,26 @@ func itoaG(n int) string {
 		s = "-" + s
 	}
 	return s
+}
+
+// H_C09_sequence: a selector's result does not depend on which selectors
+// were evaluated before it (parsed selectors are cached by text, process
+// wide): every ordered pair of the listed selectors on one document.
+func H_C09_sequence() {
+	c1 := verif.Choose("first", len(selCases))
+	c2 := verif.Choose("second", len(selCases))
+	d := mkSelDoc()
+	tryCall(func() (any, error) { return ExecReader(d.doc, selCases[c1].sel) })
+	v, err, pan := tryCall(func() (any, error) { return ExecReader(d.doc, selCases[c2].sel) })
+	verif.Assert(!pan, "no-panic")
+	if pan {
+		return
+	}
+	want, wantErr := selCases[c2].want(d)
+	if wantErr {
+		verif.Assert(err != nil, "wrong-shape-is-error")
+	} else {
+		verif.Assert(err == nil && verif.Eq(v, want), "value-independent-of-history")
+	}
+	verif.Reach("end")
 }
